@@ -51,6 +51,7 @@ Verdict(e) ==
              surelyAlive == e.t1 < a.lo + a.life
              surelyDead == e.t0 > a.hi + a.life
          IN IF a.maybe THEN ""
+            ELSE IF a.viatx /\ a.b = "pool" THEN (IF surelyAlive /\ ~e.pooled THEN "M:request-of-a-dialog-released-by-an-answer-from-another-address-not-load-balanced" ELSE "")
             ELSE IF a.viatx THEN (IF surelyAlive /\ e.outs[1].addr # a.b THEN "M:request-of-a-dialog-attributed-through-the-transaction-binding-not-delivered-to-that-backend" ELSE "")
             ELSE IF surelyAlive /\ e.outs[1].addr # a.b
                  THEN (IF Focus = "C04" THEN "P:C04:in-dialog-request-not-delivered-to-the-answering-backend" ELSE "P:C15:pin-not-honoured-within-its-lifetime")
@@ -68,7 +69,13 @@ Update(e) ==
     ELSE IF m.kind = "resp" /\ m.method = "INVITE" /\ SrcAddr(e) \in Backs
     THEN Put(answered, Dlg(m), [b |-> SrcAddr(e), lo |-> e.t0, hi |-> e.t1, life |-> MaxI(TimeoutUs, e.expires), maybe |-> FALSE, viatx |-> FALSE])
     ELSE IF m.kind = "resp" /\ m.method = "INVITE" /\ ViaTx(e)
-    THEN Put(answered, Dlg(m), [b |-> txs[TxKey(m)], lo |-> e.t0, hi |-> e.t1, life |-> MaxI(TimeoutUs, e.expires), maybe |-> FALSE, viatx |-> TRUE])
+    THEN LET x == txs[TxKey(m)]                                   \* the binding lives like a pin: max(timeout, Expires of the request)
+             rec == [b |-> x.b, lo |-> e.t0, hi |-> e.t1, life |-> MaxI(TimeoutUs, e.expires), maybe |-> FALSE, viatx |-> TRUE]
+         IN IF e.t1 < x.lo + x.life                                                        \* surely still bound ...
+            THEN Put(answered, Dlg(m), rec)     \* ... to the pinned backend the INVITE went through, or to the rotation ("pool": the dialog is
+                                                \* released, Sticky.tla) - either way the listed property claims nothing more for it (viatx)
+            ELSE IF e.t0 > x.hi + x.life THEN answered                                     \* surely lapsed: not attributed
+            ELSE Put(answered, Dlg(m), [rec EXCEPT !.maybe = TRUE])                        \* neither: nothing is claimed for this dialog
     ELSE IF m.kind = "resp" /\ m.method = "INVITE" /\ Dlg(m) \in DOMAIN answered
     THEN [answered EXCEPT ![Dlg(m)].maybe = TRUE]      \* an answer from an unknown address without a live binding: what it does to an existing pin is not claimed
     ELSE IF m.kind = "resp" /\ m.method = "SUBSCRIBE" /\ Len(e.outs) = 1 /\ e.outs[1].addr \in Backs
@@ -84,7 +91,8 @@ Update(e) ==
 UpdateTx(e) ==
     LET m == e.inmsg IN
     IF e.panic # "" THEN txs
-    ELSE IF m.kind = "req" /\ Dispatched(e) /\ "branch" \in DOMAIN e.outs[1] THEN Put(txs, <<m.method, e.outs[1].branch>>, e.outs[1].addr)
+    ELSE IF m.kind = "req" /\ Dispatched(e) /\ "branch" \in DOMAIN e.outs[1]
+    THEN Put(txs, <<m.method, e.outs[1].branch>>, [b |-> (IF e.pooled THEN "pool" ELSE e.outs[1].addr), lo |-> e.t0, hi |-> e.t1, life |-> MaxI(TimeoutUs, e.expires)])
     ELSE IF ViaTx(e) /\ m.status >= 200 THEN Drop(txs, TxKey(m))
     ELSE txs
 TraceInit == l = 1 /\ cfg = [none |-> TRUE] /\ answered = <<>> /\ txs = <<>>
